@@ -121,7 +121,11 @@ type Sink struct {
 }
 
 func NewSink(path string) *Sink {
-	f, err := os.Create(path)
+	flags := os.O_CREATE | os.O_WRONLY | os.O_TRUNC
+	if opts.from > 0 {
+		flags = os.O_CREATE | os.O_WRONLY | os.O_APPEND
+	}
+	f, err := os.OpenFile(path, flags, 0644)
 	if err != nil {
 		fmt.Fprintln(os.Stderr, "cannot create", path, err)
 		os.Exit(3)
